@@ -1,7 +1,7 @@
 (* Properties_C19.v — spline, trapezoid area and simplex minimiser meet their numerical contracts. *)
 From Coq Require Import Floats.
 From mathcomp Require Import all_ssreflect all_algebra.
-From LS Require Import NumOps RcfOps F64Ops Kernels Stats Spline Simplex SplineSpec.
+From LS Require Import NumOps RcfOps F64Ops Kernels Stats Spline Simplex SplineSpec SimplexSpec.
 Set Implicit Arguments. Unset Strict Implicit. Unset Printing Implicit Defensive.
 Import Order.TTheory GRing.Theory Num.Theory.
 Local Open Scope ring_scope.
@@ -66,7 +66,27 @@ Example C19_f64_spline_runs :
   v_agree 0x1p-45 1 (spline_predict Sm [:: 0; 1; 2; 3]) [:: 0; 1; 0; 1] = true.
 Proof. by vm_compute. Qed.
 
+(* the simplex minimiser, for EVERY objective function *)
+Section SimplexAnyNumbers.
+Context {K : Type} {ops : NumOps K}.
+(* in every number system (binary64 included) the value reported is the objective at the point returned *)
+Theorem C19_simplex_reports_its_value (func : seq K -> K) x0 step xtol iter :
+  (nelder_mead func x0 step xtol iter).2 = func (nelder_mead func x0 step xtol iter).1.
+Proof. exact: nm_reports_its_value. Qed.
+End SimplexAnyNumbers.
+Section SimplexExact.
+Variable R : rcfType.
+Local Existing Instance RcfOps.
+(* over any real closed field the result is never worse than any vertex of the initial simplex *)
+Theorem C19_simplex_not_worse_than_start (func : seq R -> R) x0 step xtol iter j : (0 < size x0)%N -> (j <= size x0)%N ->
+  let p := mkseq (fun k => if j == k.+1 then (x0`_k + step`_k)%R else x0`_k) (size x0) in
+  ((nelder_mead func x0 step xtol iter).2 <= func p)%R.
+Proof. exact: nm_not_worse_than_start. Qed.
+End SimplexExact.
+
 Print Assumptions C19_thomas_pivots_pos.
 Print Assumptions C19_tridiagonal_solved.
 Print Assumptions C19_C1.
 Print Assumptions C19_trapezoid_additive.
+Print Assumptions C19_simplex_reports_its_value.
+Print Assumptions C19_simplex_not_worse_than_start.
